@@ -119,10 +119,16 @@ def run_build_check(prop, tier, *, models, probes, families, limit, nontrivial, 
         real = [x for x in real if x != "-"]
         if real != pred:
             drift.append({"id": cid, "real": real, "model": pred, "ops": [[o["op"], o["k"] or o["a"], o["b"] or o["t"], o["ends"]] for o in by_id[cid]["ops"]]})
+    drift_kinds = {}
+    for d in drift:
+        k = next((i for i in range(min(len(d["real"]), len(d["model"]))) if d["real"][i] != d["model"][i]), min(len(d["real"]), len(d["model"])))
+        op = by_id[d["id"]]["ops"][k]["op"] if k < len(by_id[d["id"]]["ops"]) else "?"
+        key = "%s: model %s / real %s" % (op, d["model"][k] if k < len(d["model"]) else "-", d["real"][k] if k < len(d["real"]) else "-")
+        drift_kinds[key] = drift_kinds.get(key, 0) + 1
     for d in drift[:3]:
         log("DRIFT: %s real=%s model(as coded)=%s %s" % (d["id"], d["real"], d["model"], json.dumps(d["ops"])))
     if drift:
-        log("  drift: %d of %d sequences end differently than the as-coded model predicts (not a verdict)" % (len(drift), len(cases)))
+        log("  drift: %d of %d sequences end differently than the as-coded model predicts (not a verdict): %s" % (len(drift), len(cases), json.dumps(drift_kinds)))
     # reproduce: a rejection counts only if a second replay of the same sequence is rejected for the same reason
     confirmed = []
     if mine:
@@ -169,7 +175,7 @@ def run_build_check(prop, tier, *, models, probes, families, limit, nontrivial, 
                    "observations); non-trivial = " + nontrivial.__doc__,
            "exhaustive": exhaustive, "model_runs": model_runs, "families": gen_stats, "observation_lines": len(lines),
            "trace_validation_states": res["states"], "rejected_cases": len(res["bad"]), "rejected_for_this_property": len(mine),
-           "confirmed": len(confirmed), "signatures": sig_count, "known_findings": n_known, "drift": len(drift), "drift_samples": drift[:3],
+           "confirmed": len(confirmed), "signatures": sig_count, "known_findings": n_known, "drift": len(drift), "drift_first_difference": drift_kinds, "drift_samples": drift[:3],
            "selftest": st}
     vlib.write_evidence(prop, tier, "model_checking", cov, assumptions=list(assumptions) + [
         "node bodies and branch conditions are the harness's own functions: they log the dynamic type they receive, emit a value of a fixed "
